@@ -102,3 +102,47 @@ Print Assumptions C02_outside.
 Example C02_nonvacuous :
   WF (kvec ex_kv) (kdeg ex_kv) /\ kvalid1 ex_kv (1#3) = true /\ valid_second (kdeg ex_kv) 1 = Ok 1%nat.
 Proof. destruct ex_hyps as (W & Hv & _ & _ & _ & _ & _ & _ & Hs). repeat split; assumption. Qed.
+
+From NurbsV Require Import Spec.BSpline Proofs.Local Proofs.LinIndep Proofs.LinIndepCurves.
+From NurbsV Require Proofs.UnionProofs.
+(* ---- linear independence of the B-spline basis (Proofs/LinIndep.v): a spline that vanishes on a non-empty span has zero
+   coefficients there (induction on the degree through the derivative formula, the Taylor remainder bound and the partition
+   of unity); hence coefficients over a well-formed vector are determined by the function. ---- *)
+Theorem C02_local_linear_independence :
+  forall U : nat -> Q,
+       mono U ->
+       forall s : nat,
+       U s < U (S s) ->
+       forall p : nat,
+       (p <= s)%nat ->
+       forall (n : nat) (c : nat -> Q),
+       (s < n)%nat ->
+       (forall u : Q,
+        U s <= u -> u < U (S s) -> qsum (map (fun i : nat => Nloc U s p i u * c i) (seq 0 n)) == 0) ->
+       forall i : nat, (s - p <= i)%nat -> (i <= s)%nat -> c i == 0.
+Proof. exact local_lin_indep. Qed.
+Print Assumptions C02_local_linear_independence.
+
+Theorem C02_linear_independence :
+  forall (U : list Q) (p : nat) (P P' : list Q),
+       WF U p ->
+       length P = npts_of U p ->
+       length P' = npts_of U p ->
+       (forall u : Q, in_range U p u = true -> curve_spec1 U p P u == curve_spec1 U p P' u) ->
+       Forall2 Qeq P P'.
+Proof. exact lin_indep_list. Qed.
+Print Assumptions C02_linear_independence.
+
+Theorem C02_linear_independence_points :
+  forall (U : list Q) (p d : nat) (P P' : list (list Q)),
+       WF U p ->
+       length P = npts_of U p ->
+       length P' = npts_of U p ->
+       Forall (fun x : list Q => length x = d) P ->
+       Forall (fun x : list Q => length x = d) P' ->
+       (forall u : Q,
+        in_range U p u = true ->
+        u < umax_of U p -> Forall2 Qeq (curve_spec U p d P u) (curve_spec U p d P' u)) ->
+       Forall2 (Forall2 Qeq) P P'.
+Proof. exact lin_indep_points_strong. Qed.
+Print Assumptions C02_linear_independence_points.
